@@ -5,6 +5,7 @@ use crate::image::{Image, ImageIndex, OffClass};
 use crate::oracle::{self, ProbeStats};
 use crate::prng::Fnv;
 use crate::refdata::Entry;
+use crate::conc::{FinishGuard, Scheduler};
 use crate::scenario::{ErrKind, Op, Plan, PoolInfo, Scenario};
 use hifitime::leap_seconds::LeapSecondsFile;
 use hifitime::verif_seam;
@@ -125,6 +126,12 @@ counters!(
     runs_quiet,
     runs_transparent,
     runs_mixed,
+    runs_concurrent,
+    conc_threads,
+    conc_yield_points,
+    conc_switches,
+    conc_steals,
+    conc_loads_interleaved,
     runs_nontrivial,
 );
 
@@ -207,7 +214,7 @@ impl Counters {
 pub struct RealDisk {
     pub path: PathBuf,
     tmp: PathBuf,
-    pool_dir: PathBuf,
+    pub pool_dir: PathBuf,
     current: Option<usize>,
     pub installs: u64,
 }
@@ -311,6 +318,7 @@ pub struct World {
     interleavings: BTreeSet<(u32, u32, u32)>,
     v0_offsets_faulted: Vec<u64>, // bitset
     unarmed_opens: u64,
+    sched: Option<(Arc<Scheduler>, usize)>,
 }
 
 impl World {
@@ -357,6 +365,7 @@ impl World {
         self.log.u64(self.current as u64);
         Ok(Box::new(SimFile {
             world: me.clone(),
+            sched: self.sched.clone(),
             ctx: self.ctx.clone(),
             image: self.current,
             pos: 0,
@@ -366,6 +375,7 @@ impl World {
 
 struct SimFile {
     world: Rc<RefCell<World>>,
+    sched: Option<(Arc<Scheduler>, usize)>,
     ctx: Arc<PoolCtx>, // own handle: no reference-count traffic per read
     image: usize,
     pos: usize,
@@ -373,6 +383,9 @@ struct SimFile {
 
 impl Read for SimFile {
     fn read(&mut self, buf: &mut [u8]) -> io::Result<usize> {
+        if let Some((s, id)) = &self.sched {
+            s.yield_point(*id);
+        }
         let mut guard = self.world.borrow_mut();
         let w = &mut *guard;
         let ctx = &*self.ctx;
@@ -546,6 +559,10 @@ pub struct RunResult {
     pub log_hash: u64,
     pub signature: u64,
     pub nontrivial: bool,
+    pub ok_load_checked: bool,
+    /// Times the cooperative scheduler had to take the turn away from a blocked thread; such a
+    /// run's interleaving depends on timing and is excluded from determinism comparisons.
+    pub steals: u64,
     pub trace: Vec<String>, // filled only when tracing
 }
 
@@ -557,6 +574,8 @@ struct Held {
 pub struct Sim {
     world: Rc<RefCell<World>>,
     ctx: Arc<PoolCtx>,
+    /// Real-disk mirrors handed to the client threads of a `Concurrent` operation.
+    pub thread_disks: Vec<RealDisk>,
     pub bypass: bool,
     pub trace: bool,
     pub probe_stats: ProbeStats,
@@ -611,16 +630,23 @@ impl Sim {
             interleavings: BTreeSet::new(),
             v0_offsets_faulted: vec![0; v0_len / 64 + 1],
             unarmed_opens: 0,
+            sched: None,
         }));
         let w2 = world.clone();
         verif_seam::set_opener(Some(Box::new(move |p: &Path| {
             let me = w2.clone();
+            // a seam point is a yield point of the concurrent stratum
+            let sched = w2.borrow().sched.clone();
+            if let Some((s, id)) = sched {
+                s.yield_point(id);
+            }
             let mut g = w2.borrow_mut();
             g.open(p, &me)
         })));
         Sim {
             world,
             ctx,
+            thread_disks: Vec::new(),
             bypass: false,
             trace: false,
             probe_stats: ProbeStats::default(),
@@ -670,6 +696,18 @@ impl Sim {
     pub fn counters(&self) -> Counters {
         self.world.borrow().ctr.clone()
     }
+    pub fn set_sched(&mut self, s: Arc<Scheduler>, id: usize) {
+        self.world.borrow_mut().sched = Some((s, id));
+    }
+    pub fn take_real(&mut self) -> Option<RealDisk> {
+        self.world.borrow_mut().real.take()
+    }
+    pub fn worker_dir(&self) -> Option<PathBuf> {
+        self.world.borrow().real.as_ref().map(|r| r.path.parent().unwrap().to_path_buf())
+    }
+    pub fn pool_dir(&self) -> Option<PathBuf> {
+        self.world.borrow().real.as_ref().map(|r| r.pool_dir.clone())
+    }
     pub fn interleavings(&self) -> BTreeSet<(u32, u32, u32)> {
         self.world.borrow().interleavings.clone()
     }
@@ -695,6 +733,10 @@ impl Sim {
                 w.ctr.inc(C::runs_quiet);
             } else if sc.stratum == "transparent" {
                 w.ctr.inc(C::runs_transparent);
+            } else if sc.stratum == "concurrent" {
+                w.ctr.inc(C::runs_concurrent);
+            } else if sc.stratum == "thread" {
+                w.ctr.v[C::runs as usize] -= 1; // a client thread of a Concurrent op, not a run
             } else {
                 w.ctr.inc(C::runs_mixed);
             }
@@ -705,6 +747,7 @@ impl Sim {
         sig.bytes(ctx.images[sc.initial].class.as_bytes());
         let mut any_fault_or_race = false;
         let mut any_ok_load_checked = false;
+        let mut run_steals = 0u64;
         let mut violation: Option<Violation> = None;
 
         for (oi, op) in sc.ops.iter().enumerate() {
@@ -749,6 +792,128 @@ impl Sim {
                     }
                     if self.trace {
                         trace.push(format!("op{oi} Restart client {c}"));
+                    }
+                }
+                Op::Concurrent { threads, sched_seed, switch_den } => {
+                    if self.bypass {
+                        continue;
+                    }
+                    let n = threads.len();
+                    // one real-disk mirror per client thread, created once per worker
+                    while self.thread_disks.len() < n {
+                        let j = self.thread_disks.len();
+                        match (self.worker_dir(), self.pool_dir()) {
+                            (Some(d), Some(p)) => match RealDisk::new(&d.join(format!("t{j}")), &p) {
+                                Ok(rd) => self.thread_disks.push(rd),
+                                Err(e) => std::panic::panic_any(e),
+                            },
+                            _ => break,
+                        }
+                    }
+                    let sched = Arc::new(Scheduler::new(n, *sched_seed, *switch_den));
+                    let mut disks: Vec<Option<RealDisk>> = (0..n).map(|_| self.thread_disks.pop()).collect();
+                    let run_seed = sc.seed;
+                    type Out = (std::thread::Result<RunResult>, Counters, Option<RealDisk>);
+                    let outs: Vec<Out> = std::thread::scope(|s| {
+                        let mut hs = Vec::new();
+                        for (j, t) in threads.iter().enumerate() {
+                            let ctx = ctx.clone();
+                            let sched = sched.clone();
+                            let disk = disks[j].take();
+                            let trace_on = self.trace;
+                            hs.push(s.spawn(move || {
+                                let mut sim = Sim::new(ctx, disk);
+                                sim.trace = trace_on;
+                                sim.set_sched(sched.clone(), j);
+                                let tsc = Scenario {
+                                    seed: crate::prng::mix(run_seed, 1000 + j as u64),
+                                    stratum: "thread".into(),
+                                    n_clients: 1,
+                                    initial: t.image,
+                                    ops: vec![
+                                        Op::Load {
+                                            client: 0,
+                                            plan: t.plan.clone(),
+                                            must_succeed: false,
+                                        },
+                                        Op::Query {
+                                            client: 0,
+                                            probe_seed: t.probe_seed,
+                                            full: false,
+                                        },
+                                    ],
+                                };
+                                let r = {
+                                    let _fin = FinishGuard(&sched, j);
+                                    sched.start(j);
+                                    catch_unwind(AssertUnwindSafe(|| sim.execute(&tsc)))
+                                };
+                                (r, sim.counters(), sim.take_real())
+                            }));
+                        }
+                        hs.into_iter().map(|h| h.join().expect("client thread wrapper panicked")).collect()
+                    });
+                    let st = sched.stats();
+                    let mut w = self.world.borrow_mut();
+                    w.ctr.add(C::conc_threads, n as u64);
+                    w.ctr.add(C::conc_yield_points, st.yields);
+                    w.ctr.add(C::conc_switches, st.switches);
+                    w.ctr.add(C::conc_steals, st.steals);
+                    run_steals += st.steals;
+                    if st.switches >= 2 {
+                        w.ctr.inc(C::conc_loads_interleaved);
+                        any_fault_or_race = true;
+                    }
+                    w.log.u64(st.trace_hash);
+                    sig.u64(n as u64);
+                    sig.u64(st.switches.min(8));
+                    for (j, (r, ctr, disk)) in outs.into_iter().enumerate() {
+                        if let Some(d) = disk {
+                            self.thread_disks.push(d);
+                        }
+                        w.ctr.merge(&ctr);
+                        match r {
+                            Ok(rr) => {
+                                w.log.u64(rr.log_hash);
+                                sig.u64(rr.signature);
+                                if rr.ok_load_checked {
+                                    any_ok_load_checked = true;
+                                }
+                                if self.trace {
+                                    for l in rr.trace {
+                                        trace.push(format!("op{oi} thread {j} ({}): {l}", ctx.images[threads[j].image].name));
+                                    }
+                                }
+                                if let (Some(v), None) = (rr.violation, &violation) {
+                                    violation = Some(Violation {
+                                        oracle: v.oracle,
+                                        op_index: oi,
+                                        message: format!(
+                                            "[concurrent loads, thread {j} of {n}, image {}, {} context switches] {}",
+                                            ctx.images[threads[j].image].name, st.switches, v.message
+                                        ),
+                                    });
+                                }
+                            }
+                            Err(p) => {
+                                if let Some(h) = p.downcast_ref::<HarnessError>() {
+                                    let m = h.0.clone();
+                                    drop(w);
+                                    std::panic::panic_any(HarnessError(m));
+                                }
+                                drop(w);
+                                std::panic::panic_any(HarnessError(format!(
+                                    "client thread {j} of a concurrent operation panicked outside the code under test: {}",
+                                    take_last_panic()
+                                )));
+                            }
+                        }
+                    }
+                    if self.trace {
+                        trace.push(format!(
+                            "op{oi} Concurrent: {n} threads, {} yield points, {} switches, {} steals",
+                            st.yields, st.switches, st.steals
+                        ));
                     }
                 }
                 Op::Load { client, plan, must_succeed } => {
@@ -1114,6 +1279,8 @@ impl Sim {
             log_hash: w.log.0,
             signature: sig.0,
             nontrivial,
+            ok_load_checked: any_ok_load_checked,
+            steals: run_steals,
             trace,
         }
     }
